@@ -159,9 +159,9 @@ impl Check for C18 {
     }
     fn cases(&self, thorough: bool) -> usize {
         if thorough {
-            300_000
+            600_000
         } else {
-            12_000
+            20_000
         }
     }
     fn generate(&self, d: &mut Dec, thorough: bool) -> Case {
